@@ -142,7 +142,7 @@ class JWTClaims(BaseClaims):
         """
         aud_option = self.options.get("aud")
         aud = self.get("aud")
-        if not aud_option or not aud:
+        if not aud_option or "aud" not in self:
             return
 
         aud_values = aud_option.get("values")
